@@ -311,6 +311,11 @@ pub fn acc_ord(a: &mut It, x: It) {
     a.1 = (a.1 * 17 + x.1 + 1).rem_euclid(P);
 }
 
+/// key extractor for `sort_by_key` (a named fn, so that the higher-ranked signature is explicit)
+pub fn key0(x: &It) -> &i64 {
+    &x.0
+}
+
 /// commutative accumulation on the value half (keyed folds)
 pub fn acc_val(id: u8, a: &mut i64, v: i64) {
     match id % 2 {
